@@ -6,7 +6,7 @@ import runner_props
 PROP = "C10"
 LEAN_MODULES = ["PamsProps.C10"]
 NAMESPACES = ["Pams.C10"]
-DRIVERS = ["Market", "Runner", "Pure"]
+DRIVERS = ["Market", "Runner", "Pure", "Sim"]
 TRUSTED = [
     "Logger.process dispatch by isinstance is observed, not modelled: a recording Logger subclass overrides write/bulk_write/write_and_direct_process/_process/process_* and delegates",
     "scheduler model: markets/agents/events/draws are oracles (tape recorded from the real run)",
